@@ -1448,7 +1448,16 @@ fn explore(case: Arc<Case>, args: Arc<Args>) {
 }
 
 fn main() {
-    std::panic::set_hook(Box::new(|_| {}));
+    // panics are expected outcomes (caught per request) or reported through F lines; the one
+    // message that is kept is salsa's own assertion of update_transferred_edges: the process
+    // usually aborts right after it (a poisoned lock in a destructor), so it is printed at once
+    std::panic::set_hook(Box::new(|info| {
+        let s = info.to_string();
+        if s.contains("Circular reference between blocked edges") {
+            println!("A salsa-assertion Circular reference between blocked edges (update_transferred_edges)");
+            let _ = std::io::stdout().flush();
+        }
+    }));
     let mut args = parse_args();
     if !cfg!(feature = "shuttle") {
         args.sched = "os".into();
